@@ -282,3 +282,70 @@ func runTickerStorm(p TickerStormPlan) (vk.Outcome, error) {
 func TestTickerResetStorm(t *testing.T) {
 	vk.Run(t, suite, "ticker-reset-storm", 30, genTickerStorm, runTickerStorm)
 }
+
+// ---------------------------------------------------------------- Stop racing a firing timer (real clock)
+//
+// Fast tickers (period 20 us) are stopped at swept moments, so that now and then Stop coincides with the
+// timer's callback. Every tick carries the time at which it was produced: one stamped after Stop had
+// returned was sent after Stop had returned ("No tick is sent after Stop returns"); a ticker that goes on
+// ticking shows up within a few periods.
+
+type StopStormPlan struct {
+	Workers int `json:"workers"`
+	Trials  int `json:"trials"`
+	Jitter  int `json:"jitter_us"`
+}
+
+func genStopStorm(t *rapid.T) StopStormPlan {
+	return StopStormPlan{Workers: rapid.SampledFrom([]int{2, 4, 8}).Draw(t, "workers"), Trials: rapid.IntRange(100, 400).Draw(t, "trials"), Jitter: rapid.SampledFrom([]int{0, 0, 5, 19}).Draw(t, "jitter")}
+}
+
+func runStopStorm(p StopStormPlan) (vk.Outcome, error) {
+	var out vk.Outcome
+	const d = 20 * time.Microsecond
+	var mu sync.Mutex
+	var verr error
+	var wg sync.WaitGroup
+	for w := 0; w < p.Workers; w++ {
+		wg.Add(1)
+		go func(w int) {
+			defer wg.Done()
+			for i := 0; i < p.Trials; i++ {
+				mu.Lock()
+				failed := verr != nil
+				mu.Unlock()
+				if failed {
+					return
+				}
+				tk := xtime.NewJitterTicker(d, us(p.Jitter))
+				wait := time.Duration((i*7919 + w*104729) % int(6*d)) // swept, not random: the case is plain data
+				for start := time.Now(); time.Since(start) < wait; {
+				}
+				tk.Stop()
+				stopped := time.Now()
+				for watch := time.Now(); time.Since(watch) < 300*time.Microsecond; {
+					select {
+					case tick := <-tk.C:
+						if tick.After(stopped) {
+							mu.Lock()
+							if verr == nil {
+								verr = vk.Violf("tick-after-stop", "worker %d trial %d: a tick stamped %v after Stop had returned (period %v, Stop called %v after the ticker was made)", w, i, tick.Sub(stopped), d, wait)
+							}
+							mu.Unlock()
+							tk.Stop()
+							return
+						}
+					default:
+					}
+				}
+			}
+		}(w)
+	}
+	wg.Wait()
+	out.NonTrivial, out.Execs = true, p.Workers*p.Trials
+	return out, verr
+}
+
+func TestTickerStopStorm(t *testing.T) {
+	vk.Run(t, suite, "ticker-stop-storm", 20, genStopStorm, runStopStorm)
+}
